@@ -233,6 +233,24 @@ PROPS["C19"] = float_entry(
     "floats as for C14; non-trivial = the value lies within 1 of a bound of the target, or the result is None",
     lambda e: any(o.get("k") == "none" for o in e["fo"].values()) or e["op"] != "from_prim")
 
+def traits_entry(rule, nontrivial, **kw):
+    d = {"bin": "traits", "modes": {"quick": ["debug", "release"], "thorough": ["debug", "release"]}, "prims": False,
+         "rule": rule, "nontrivial": nontrivial, "mc": {"quick": [], "thorough": []}}
+    d.update(kw)
+    return d
+
+
+PROPS["C17"] = traits_entry(
+    "one case = (operation, type, operands) with every form recorded in one event and judged by the semantics of the inherent method: by-value/by-reference operand combinations, op-assign and op-assign-by-reference, const inherent twins for + - * / % & | ^ ! and unary -, "
+    "<< >> <<= >>= with each of the 12 primitive right-hand-side types in 6 forms each (amounts negative, >= BITS, > u32::MAX) and with bnum-typed amounts below BITS, Sum/Product over by-value and by-reference iterators of length 0..5 against the left fold, Add/Div/Rem<digit>; both build modes; "
+    "non-trivial = some form panics or overflows, or the event is a fold / shift family",
+    lambda e: any_flag(e) or e["op"] in ("fold", "shl_ops", "shr_ops", "digit_ops"))
+PROPS["C18"] = traits_entry(
+    "one case = (trait family, type, operands): Integer (div_floor, mod_floor, div_rem, div_mod_floor, gcd, lcm, is_multiple_of, divides, is_even, is_odd), Roots (sqrt, cbrt, nth_root for degrees 1..11, 13, 16, 17, 31..33, 40, 63..65, 100, 127..129, 255, 256, 1000, W-1..W+1, 2^31, 2^32-1 on x in {r^n-1, r^n, r^n+1}, MAX, MIN, random), "
+    "Euclid/CheckedEuclid, Signed, Checked*/Wrapping*/Saturating*/Overflowing* forwarders, Pow, MulAdd(Assign), PrimInt counts/shifts/rotations/endianness, Bounded, Zero/One, Num::from_str_radix; roots are judged relationally (r^n <= |x| < (r+1)^n); "
+    "non-trivial = a root of degree >= 2 of a value above 2^64, a floored division with operands of opposite sign, or a gcd/lcm of multi-byte operands",
+    lambda e: (e["op"] == "root" and to_int(e["a"][1]) >= 2 and abs(to_int(e["a"][0])) >= (1 << 64)) or (e["op"] == "integer" and (to_int(e["a"][0]) < 0) != (to_int(e["a"][1]) < 0)) or (e["op"] == "integer" and multi_digit(e, 0) and multi_digit(e, 1)))
+
 KNOWN_PREDICATES = {}
 
 
